@@ -61,6 +61,51 @@ pub struct BlockRec {
 pub struct ChainOpts {
   /// index inscriptions too and attach an event receiver (C37)
   pub events: bool,
+  /// C37 receiver mode: channel of capacity 1 drained by a consumer thread that sleeps a few
+  /// milliseconds per event while `update()` runs on the main thread (line op 3)
+  pub slow: bool,
+}
+
+/// the slow consumer: never blocks, so a blocking sender can always make progress
+pub struct SlowConsumer {
+  events: std::sync::Arc<std::sync::Mutex<Vec<ord::index::event::Event>>>,
+  req: std::sync::Arc<std::sync::atomic::AtomicU64>,
+  ack: std::sync::Arc<std::sync::atomic::AtomicU64>,
+}
+
+impl SlowConsumer {
+  fn start(mut rx: tokio::sync::mpsc::Receiver<ord::index::event::Event>) -> SlowConsumer {
+    use std::sync::atomic::Ordering::SeqCst;
+    use tokio::sync::mpsc::error::TryRecvError;
+    let c = SlowConsumer { events: Default::default(), req: Default::default(), ack: Default::default() };
+    let (events, req, ack) = (c.events.clone(), c.req.clone(), c.ack.clone());
+    std::thread::spawn(move || loop {
+      // read the request number BEFORE looking at the channel: an Empty seen after a request
+      // made after update() returned means everything sent has been taken
+      let r = req.load(SeqCst);
+      match rx.try_recv() {
+        Ok(e) => {
+          std::thread::sleep(std::time::Duration::from_millis(3));
+          events.lock().unwrap().push(e);
+        }
+        Err(TryRecvError::Empty) => {
+          ack.store(r, SeqCst);
+          std::thread::sleep(std::time::Duration::from_micros(300));
+        }
+        Err(TryRecvError::Disconnected) => break,
+      }
+    });
+    c
+  }
+  /// everything sent before this call, in order (call after `update()` returned)
+  fn drain(&self) -> Vec<ord::index::event::Event> {
+    use std::sync::atomic::Ordering::SeqCst;
+    let r = self.req.fetch_add(1, SeqCst) + 1;
+    while self.ack.load(SeqCst) < r {
+      std::thread::sleep(std::time::Duration::from_micros(300));
+    }
+    std::mem::take(&mut *self.events.lock().unwrap())
+  }
 }
 
 pub struct Chain {
@@ -68,6 +113,7 @@ pub struct Chain {
   /// events drained after every `update()`, one list per block (only with `opts.events`)
   pub block_events: Vec<Vec<ord::index::event::Event>>,
   receiver: Option<tokio::sync::mpsc::Receiver<ord::index::event::Event>>,
+  consumer: Option<SlowConsumer>,
   pub core: mockcore::Handle,
   pub index: ord::Index,
   _dir: tempfile::TempDir,
@@ -117,7 +163,7 @@ impl Chain {
     };
     let (index, receiver) = if opts.events {
       let settings = ordkit::settings(&core, dir.path(), &["--index-runes"]);
-      let (sender, receiver) = tokio::sync::mpsc::channel(1 << 20);
+      let (sender, receiver) = tokio::sync::mpsc::channel(if opts.slow { 1 } else { 1 << 20 });
       (ord::Index::open_with_event_sender(&settings, Some(sender)).expect("open index"), Some(receiver))
     } else {
       (ordkit::open_index(&core, dir.path(), &["--index-runes", "--no-index-inscriptions"]), None)
@@ -125,6 +171,7 @@ impl Chain {
     let mut c = Chain {
       opts,
       block_events: Vec::new(),
+      consumer: None,
       receiver,
       core,
       index,
@@ -143,6 +190,10 @@ impl Chain {
     c.record_block(0, time, vec![(genesis, TxSpec { ins: vec![], outs: vec![OutSpec::P2wpkh] })]);
     // the genesis coinbase output is not spendable in mockcore (not in utxos)
     c.live.clear();
+    if c.opts.slow {
+      // started before the first update(); ends when the index (the sender) is dropped
+      c.consumer = c.receiver.take().map(SlowConsumer::start);
+    }
     c.index.update().unwrap();
     c.drain_events();
     c.dumps.push(c.index.verif_dump().unwrap());
@@ -150,6 +201,11 @@ impl Chain {
   }
 
   fn drain_events(&mut self) {
+    if let Some(c) = &self.consumer {
+      let v = c.drain();
+      self.block_events.push(v);
+      return;
+    }
     let mut v = Vec::new();
     if let Some(r) = self.receiver.as_mut() {
       while let Ok(e) = r.try_recv() {
@@ -317,7 +373,7 @@ impl Chain {
 
   /// the whole chain as a case line
   pub fn line(&self) -> Line {
-    let mut l = L::new().p(if self.opts.events { 2u8 } else { 1u8 }).p(Rune::first_rune_height(bitcoin::Network::Regtest)).p(0u8).p(self.blocks.len());
+    let mut l = L::new().p(if self.opts.slow { 3u8 } else if self.opts.events { 2u8 } else { 1u8 }).p(Rune::first_rune_height(bitcoin::Network::Regtest)).p(0u8).p(self.blocks.len());
     for b in &self.blocks {
       l.push(b.time);
       l.push(b.txnums.len());
@@ -563,7 +619,7 @@ pub fn rebuild(case: &Line) -> (Chain, bool) {
   let mut c = Cur::new(case);
   let op = c.u8();
   let blocks = parse_specs(&mut c);
-  let mut chain = Chain::with(ChainOpts { events: op == 2 });
+  let mut chain = Chain::with(ChainOpts { events: op == 2 || op == 3, slow: op == 3 });
   for b in blocks.iter().skip(1) {
     chain.add_block(b);
   }
